@@ -5,6 +5,7 @@
  * started program (inherited, high descriptor) so that the slave remains a live terminal. */
 #define _GNU_SOURCE
 #include <fcntl.h>
+#include <grp.h>
 #include <pty.h>
 #include <stdio.h>
 #include <stdlib.h>
@@ -22,6 +23,8 @@ int main(int argc, char **argv) {
     } else {
         int fd = open("/dev/null", O_RDONLY); dup2(fd, 0); if (fd != 0) close(fd);
     }
+    /* real gid != real uid (4242 is no uid of any run), no supplementary groups */
+    if (setgroups(0, NULL) != 0 || setresgid(4242, 4242, 4242) != 0) { perror("tool_runas: setresgid"); return 3; }
     if (setresuid(uid, uid, uid) != 0) { perror("tool_runas: setresuid"); return 3; }
     if (strcmp(argv[3], "-")) setenv("LD_PRELOAD", argv[3], 1);
     execv(argv[4], argv + 4);
